@@ -329,7 +329,7 @@ def differential(rep: Report, tier: str, seed: int, registry):
         val = validate_traces("RuleSelectTrace",
                               [{k: t[k] for k in ("id", "allow", "deny", "complete", "events")} for t in traces],
                               constants={"Source": "live", "MaxAllow": 0, "MaxDeny": 0, "MaxTotal": 0},
-                              batch=400, timeout=1800, extra_env={"VF_REGISTRY": fn})
+                              batch=1000, timeout=2400, extra_env={"VF_REGISTRY": fn})
     finally:
         shutil.rmtree(d, ignore_errors=True)
     rep.validation(val, "RuleSelectTrace")
